@@ -51,7 +51,7 @@ fn main() {
     let watchdog_ms: u64 = std::env::var("VERIF_WATCHDOG_MS")
         .ok()
         .and_then(|s| s.parse().ok())
-        .unwrap_or(10_000);
+        .unwrap_or(4_000);
     let stdin = io::stdin();
     let stdout = io::stdout();
     let mut out = io::BufWriter::new(stdout.lock());
